@@ -74,6 +74,24 @@ fn main() {
         i += 2;
     }
     let name = args[1].clone();
+    if name.starts_with("gen-") {
+        let res = match &out {
+            Some(p) => {
+                let mut f = std::io::BufWriter::new(std::fs::File::create(p).expect("create out"));
+                svh::gen::emit::run(&name, seed, &extra, &mut f)
+            }
+            None => {
+                let so = std::io::stdout();
+                let mut l = std::io::BufWriter::new(so.lock());
+                svh::gen::emit::run(&name, seed, &extra, &mut l)
+            }
+        };
+        if let Err(e) = res {
+            eprintln!("svh {name}: {e}");
+            std::process::exit(2);
+        }
+        return;
+    }
     let Some(f) = svh::mon::find(&name) else {
         eprintln!("unknown monitor {name}");
         std::process::exit(2);
